@@ -21,6 +21,7 @@
 From LymphModel Require Import Base States Linalg Graph Transition Observation Dist Unilateral Models Params
   ParamsStatements ParamsLemmas ParamsProofs ParamsBilateral ParamsMidline ParamsMidlineMore
   Safe ParamsMidlineSafe Named NamedProofs NamedMidline NamedMidlineMore ParamsMidlineRest.
+From LymphModel Require SafeProofs SafeMidline.
 From Coq Require Import Lia.
 Local Open Scope nat_scope.
 Local Open Scope string_scope.
